@@ -42,3 +42,68 @@ Definition rsampled_local (pool : trace) (n : rnode) : Prop :=
   forall i o c s cnt e, In (o, c) (rkids (nth i (racts n) ract0)) -> In (s, (cnt, e)) (rtrack c) -> 0 < cnt ->
                         sampled_by pool i o s.
 Definition rsampled_ok (pool : trace) : rnode -> Prop := rtree_all (rsampled_local pool).
+
+(* ---------------- particles, full statement for rPOMCP (same shape as Spec.particles_full).
+   [B] is the belief the node's simulations start from: the positive part of the sampling belief for
+   the root, of the tracking belief for every other node. ------------------------------------- *)
+Definition tpos (t : track) (s : nat) : Prop := exists cnt e, In (s, (cnt, e)) t /\ 0 < cnt.
+Definition sbpos (sb : sbelief) (s : nat) : Prop := exists cnt, In (s, cnt) sb /\ 0 < cnt.
+Definition rpred_by (pool : trace) (B : nat -> Prop) (i o p : nat) : Prop :=
+  exists e, In e (ev0 :: pool) /\ B (es e) /\ ea e = i /\ eo e = o /\ es1 e = p.
+
+Inductive rfull (pool : trace) : (nat -> Prop) -> rnode -> Prop :=
+| RFull : forall (B : nat -> Prop) n,
+    (forall i o c p, In (o, c) (rkids (nth i (racts n) ract0)) -> tpos (rtrack c) p -> rpred_by pool B i o p) ->
+    (forall a k c, In a (racts n) -> In (k, c) (rkids a) -> rfull pool (tpos (rtrack c)) c) ->
+    rfull pool B n.
+
+(* coherent log: every in-tree call was logged with the state the planner was carrying, and every
+   simulation starts from a state with a positive count in the root's sampling belief *)
+Definition sbmem (x : nat) (sb : sbelief) : bool := existsb (fun p => Nat.eqb (fst p) x && (0 <? snd p)) sb.
+
+Fixpoint r_coh A (term : nat -> bool) entropy plogp (fuel h d : nat) (b : rnode) (s : nat) (tr : trace) : bool :=
+  match fuel with
+  | 0 => true
+  | S fuel' =>
+    let (e, tr1) := next tr in
+    Nat.eqb (es e) s &&
+    match rfind_kid (eo e) (rkids (nth (ea e) (racts b) ract0)) with
+    | None => true
+    | Some c =>
+      if (d + 1 <? h) && negb (term (es1 e))
+      then r_coh A term entropy plogp fuel' h (d + 1) (r_allocate A (r_update entropy plogp c (es1 e))) (es1 e) tr1
+      else true
+    end
+  end.
+
+Fixpoint r_coh_loop A term disc k entropy plogp (iters h : nat) (sb : sbelief) (g : rnode) (tr : trace) : bool :=
+  match iters with
+  | 0 => true
+  | S i' =>
+    sbmem (root_particle tr) sb && r_coh A term entropy plogp h h 0 g (root_particle tr) tr &&
+    let '(g1, _, tr1, _) := r_simulate A term disc k entropy plogp h h 0 g (root_particle tr) tr in
+    r_coh_loop A term disc k entropy plogp i' h sb g1 tr1
+  end.
+
+Definition r_coh_run A term disc k entropy plogp (iters h : nat) (sb : sbelief) (g : rnode) (tr : trace) : bool :=
+  if Nat.eqb h 0 then true else r_coh_loop A term disc k entropy plogp iters h sb g tr.
+
+Definition r_coh_op A term disc k entropy plogp iters (g : rnode) (op : rop) (tr : trace) : bool :=
+  match op with
+  | RFresh sb h => r_coh_run A term disc k entropy plogp iters h sb (r_allocate A rnode0) tr
+  | RAdvance a o h sb =>
+    match rfind_kid o (rkids (nth a (racts g) ract0)) with
+    | None => r_coh_run A term disc k entropy plogp iters h sb (r_allocate A rnode0) tr
+    | Some c =>
+      match fst (r_promote A c) with
+      | [] => r_coh_run A term disc k entropy plogp iters h sb (r_allocate A rnode0) tr
+      | _ :: _ => r_coh_run A term disc k entropy plogp iters h (fst (r_promote A c)) (snd (r_promote A c)) tr
+      end
+    end
+  end.
+
+(* ---------------- bestAction / actionsV consistency (what maxBeliefNodeUpdate maintains) ---------- *)
+Definition maxcons (n : rnode) : Prop :=
+  rbest n < length (racts n) /\
+  rAV n = raV (nth (rbest n) (racts n) ract0) /\
+  Forall (fun a => (raV a <= rAV n)%Q) (racts n).
